@@ -90,7 +90,7 @@ pub fn run(ctx: &mut Ctx) -> bool {
             blackbox::run_c18_blackbox(ctx);
         }
         "C10" => {
-            ctx.rule = "Counts: cases are games with a repetition tail (a walk, then 0-25 out-and-back four-ply cycles, optionally cut short; from startpos, corpus and constructed starts) given to the engine's `position` handler; for every distinct position of the game (oracle identity: placement, side, rights, en passant target) the repetition record must hold exactly its multiplicity and the record's total must be plies+1. Search: games in which the side to move has a move into a position that already occurred >= 2 times (2..6 cycles, endgames with a material gap so the loser is often to move); the last info line of every completed depth 1..4 must be cp >= 0 or mate > 0, and the record is left as given. Black-box: `position ... moves ...` + timed go on the real binary against a direct in-process call of the search on the board and record the handler produces - the (depth, nodes, score, first pv move) sequences must agree on their common prefix (so the search really receives the whole game record). Non-trivial: a history with a position of multiplicity >= 2 (counts); the side to move materially lost (static eval < -150) with such a move available (search); distinct by game.".into();
+            ctx.rule = "Counts: cases are games with a repetition tail (a walk, then 0-25 out-and-back four-ply cycles, optionally cut short; from startpos, corpus and constructed starts) given to the engine's `position` handler; for every distinct position of the game (oracle identity: placement, side, rights, en passant target) the repetition record must hold exactly its multiplicity and the record's total must be plies+1. Search: games in which the side to move has a move into a position that already occurred >= 2 times (2..6 cycles, endgames with a material gap so the loser is often to move); the last info line of every completed depth 1..4 must be cp >= 0 or mate > 0, and the record is left as given. Black-box: `position ... moves ...` + timed go on the real binary against a direct in-process call of the search on the board and record the handler produces - the (depth, nodes, score, first pv move) sequences must agree on their common prefix (so the search really receives the whole game record); and chains: a game ending with two out-and-back cycles that start with the engine's own zero-allowance reply (predicted in-process), `go` (answered with that move), then a timed `go` without a `position` in between for the materially lost side, which can now step into a position that occurred twice - every completed depth must end >= 0. Non-trivial: a history with a position of multiplicity >= 2 (counts); the side to move materially lost (static eval < -150) with such a move available (search); distinct by game.".into();
             ctx.assumptions = vec!["position identity uses the FEN convention for the en passant target (set after every double step), which both the engine and the oracle follow".into(), "the reset between `position` commands inside the UCI loop is exercised black-box (C16 sessions)".into()];
             searchsem::run_c10(ctx);
             blackbox::run_c10_blackbox(ctx);
@@ -171,7 +171,7 @@ pub fn replay(prop: &str, _family: &str, case: &Value) -> CaseResult {
         "C06" => statics::replay_c06(case),
         "C14" => statics::replay_c14(case),
         "C15" => fen::replay_c15(case),
-        "C10" if case.get("uci_vs_direct").is_some() => blackbox::replay_c10_blackbox(case),
+        "C10" if case.get("uci_vs_direct").is_some() || case.get("second_go").is_some() => blackbox::replay_c10_blackbox(case),
         "C10" => searchsem::replay_c10(case),
         "C11" => searchsem::replay_c11(case),
         "C12" => searchsem::replay_c12(case),
